@@ -2,6 +2,7 @@ import Chain33Model.Proofs.C06Prefix
 import Chain33Model.Proofs.C06Map
 import Chain33Model.Proofs.C06Iter
 import Chain33Model.Proofs.C06Badger
+import Chain33Model.Proofs.C06BadgerStep
 /-!
 C06 — Key-value backends agree with an ordered-map model.  Property theorems only
 (helpers live in `Proofs/C06*.lean`).  The model (`Model/C06.lean`) is tied to
@@ -199,16 +200,14 @@ example : (((Iter.mk' [([1], [1]), ([3], [3]), ([5], [5])] [] (some [5]) true).s
     ∧ (((Iter.mk' [([1], [1]), ([3], [3]), ([5], [5])] [] (some [5]) false).seek [2]).1.cur = some ([3], [3])) := by
   decide
 
-/-! ### GoBadgerDB iterator (repaired code, /repo commits 0f6664f and 406d120)
+/-! ### GoBadgerDB iterator (repaired code, /repo commits 0f6664f, 406d120, 5ca8d51)
 
 `BIter` mirrors `goBadgerDBIt` as repaired: the constructor leaves the iterator unpositioned
-(`fresh`), `Valid` requires `start ≤ key < end`, `Rewind` of a reverse iterator skips the bound,
-`Seek` clamps the target into `[start, end)`, a reverse `Seek` with an empty target is `done`,
-`Next` on an exhausted iterator returns false.  The earlier refutation (`badger_iter_full_false`:
-the prefix scan of `a` returned `b`) no longer applies; its witness is kept as a regression input
-(`corpus/C06/s_c06_badger_bound.ops`).  One deviation from `goLevelDBIt` remains and is *not*
-covered by the scan theorems: the first `Next` of a fresh *reverse* iterator acts as `Rewind`
-(goleveldb/memdb: stays invalid) — findings.d/C06.json, `corpus/C06/badger_residual.ops`. -/
+(`fresh`; the first `Next` is `Rewind` forward and finds nothing in reverse), `Valid` requires
+`start ≤ key < end`, `Rewind` of a reverse iterator skips the bound, `Seek` clamps the target into
+`[start, end)`, a reverse `Seek` with an empty target is `done`, `Next` on an exhausted iterator
+returns false.  The earlier refutation (`badger_iter_full_false`) no longer applies; its witness
+and those of the later deviations are kept as regression inputs (`corpus/C06/*.ops`). -/
 
 /-- forward badger iteration (`Rewind`, then `Next` while `Valid`) visits exactly the in-range
 entries in ascending order, each once — the same statement as `iter_forward`. -/
@@ -229,6 +228,38 @@ theorem badger_iter_eq_leveldb {m : Map} (hs : Sorted m) (start : Bytes) (end_ :
   cases rev with
   | false => rw [badger_iter_forward hs, iter_forward hs]
   | true => rw [badger_iter_reverse hs, iter_reverse hs]
+
+/-- **Step-level equivalence (full statement).** Every session of `Rewind` / `Seek k` / `Next`
+calls on a freshly created Badger iterator is answered exactly like the same session on the
+goleveldb/memdb iterator: the same returned Bool after every call and, when `Valid()`, the same
+`Key()` and `Value()` — for every database that Badger can hold (it rejects the empty key), every
+`start`/`end` (prefix mode, explicit range, `EmptyValue`, even an explicit empty end), both
+directions, every call sequence and every seek target (empty, outside the range, …).
+(The model has no `0xff` restriction; that restriction is the harness's, for the real backend.) -/
+def BadgerSessionFull : Prop :=
+  ∀ (m : Map) (start : Bytes) (end_ : Option Bytes) (rev : Bool) (steps : List IStep),
+    Sorted m → (∀ e ∈ m, e.1 ≠ []) →
+    (BIter.mk' m start end_ rev).session steps = (Iter.mk' m start end_ rev).session steps
+
+theorem badger_session_eq_leveldb : BadgerSessionFull :=
+  fun m start end_ rev steps hs hne => (Sim.init hs hne start end_ rev).session steps
+
+/-- non-vacuity: a reverse session with a fresh `Next`, a seek above the bound, an empty seek
+target, and steps past the end. -/
+example :
+    (BIter.mk' [([0x61], [1]), ([0x62], [2]), ([0x63], [3])] [0x61] (some [0x63]) true).session
+        [.next, .seek [0x7f], .next, .next, .next, .seek [], .next, .rewind, .seek [0x61, 0x00]]
+      = ([(false, none), (true, some ([0x62], [2])), (true, some ([0x61], [1])), (false, none), (false, none),
+         (false, none), (false, none), (true, some ([0x62], [2])), (true, some ([0x61], [1]))] : List Obs) := by
+  decide
+
+/-- the reason for the no-empty-key condition: on goleveldb a stored empty key is found by a
+reverse `Seek("")`; Badger cannot store it. -/
+example : (Iter.mk' [([], [9]), ([0x61], [1])] [] none true).session [.seek []]
+    = ([(true, some (([] : Bytes), ([9] : Bytes)))] : List Obs) := by decide
+
+example : (BIter.mk' [([], [9]), ([0x61], [1])] [] none true).session [.seek []]
+    = ([(false, none)] : List Obs) := by decide
 
 /-- regression witness of S-C06: keys `a`, `b`; the prefix scan of `a` returns only `a`. -/
 example : (BIter.mk' [([0x61], [1]), ([0x62], [2])] [0x61] none false).scan = [([0x61], [1])]
